@@ -109,7 +109,8 @@ Fixpoint assert_consistency (ds : dataset) : res unit :=
 Inductive found := FNone | FOne (i : didx).
 
 (* scan the quads of graph g (positions from i0) for object = key, skipping
-   position `skip` (the quad itself); more than one hit = errMultipleParentsFound *)
+   position `skip` (the quad itself); more than one hit = errMultipleParentsFound.
+   Used by findGraphParent, which still skips the asking quad. *)
 Fixpoint scan (g : string) (qsl : list quad) (i0 : nat) (key : ref) (skip : didx)
               (acc : found) : res found :=
   match qsl with
@@ -128,7 +129,26 @@ Fixpoint scan (g : string) (qsl : list quad) (i0 : nat) (key : ref) (skip : didx
     end
   end.
 
-(* findParentInsideGraph *)
+(* the same scan without a skipped position: since fix b73a54e findParentInsideGraph no
+   longer skips the asking quad (a quad whose object is its own subject is its own
+   parent, and relationship.path then reports the reference cycle) *)
+Fixpoint scan_in (g : string) (qsl : list quad) (i0 : nat) (key : ref) (acc : found) : res found :=
+  match qsl with
+  | [] => Ok acc
+  | q :: t =>
+    match get_ref (qo q) with
+    | Some r =>
+      if ref_eqb r key then
+        match acc with
+        | FOne _ => Err "multiple-parents"
+        | FNone => scan_in g t (S i0) key (FOne (g, i0))
+        end
+      else scan_in g t (S i0) key acc
+    | None => scan_in g t (S i0) key acc
+    end
+  end.
+
+(* findParentInsideGraph (`me` is kept for the signature; the asking quad is not skipped) *)
 Definition find_parent_inside_graph (ds : dataset) (me : didx) (q : quad) : res found :=
   g <- graph_name q ;;
   match lookup_graph ds g with
@@ -136,7 +156,7 @@ Definition find_parent_inside_graph (ds : dataset) (me : didx) (q : quad) : res 
   | Some qsl =>
     match get_ref (qs q) with
     | None => Err "invalid-reference"
-    | Some key => scan g qsl 0 key me FNone
+    | Some key => scan_in g qsl 0 key FNone
     end
   end.
 
